@@ -9,6 +9,7 @@ import c18_ref as REF
 import c18_wrap as W
 import c18_scope as SC
 import c18_special as SP
+import c18_mini as MI
 from framework import pmap
 
 ID = 'C18'
@@ -442,7 +443,7 @@ def _sweep_case0(job):
     info = {}
     try:
         ref, ru, rt, kept = REF.reference(root0, job['src'], pat, job['tmpl'], job['cat'], s['nested'], s['count'],
-                                          s['loop'], s['on'], info=info, ctx=s.get('ctx', False))
+                                          s['loop'], s['on'], info=info, ctx=s.get('ctx', False), spec=job.get('spec'))
     except REF.Skip as e:
         res['skip'] = 'reference: ' + str(e)
         return res
@@ -572,7 +573,8 @@ def sweep_jobs(ctx, n, layouts):
     import corpus
     rng = random.Random(ctx.rng.random())
     jobs = L.gen_jobs(rng, n) + L.gen_chain_jobs(rng, n // 3, allow_nested=False) + L.gen_arglike_jobs(rng, n // 4) \
-        + L.gen_ctx_jobs(rng, n // 6) + L.gen_override_jobs(rng, n // 6) + L.gen_identlist_jobs(rng, n // 5)
+        + L.gen_ctx_jobs(rng, n // 6) + L.gen_override_jobs(rng, n // 6) + L.gen_identlist_jobs(rng, n // 5) \
+        + MI.jobs(rng, n // 4)
     # the reference covers loop and nested separately
     for j in jobs:
         if j['set']['loop'] is not False and j['set']['nested'] and j['set']['on'] == 'enter':
@@ -615,7 +617,7 @@ def _report(ctx, results):
         ctx.tally('sweep_placement', job['placement'])
         if 'fail' in r:
             cls, what = r['fail'][0], r['fail'][1]
-            w = {'src': job['src'], 'pat': job['pat'], 'tmpl': job['tmpl'], 'set': job['set'], 'cat': job['cat'], 'tmpl_mode': job.get('tmpl_mode'),
+            w = {'src': job['src'], 'pat': job['pat'], 'tmpl': job['tmpl'], 'set': job['set'], 'cat': job['cat'], 'tmpl_mode': job.get('tmpl_mode'), 'spec': job.get('spec'),
                  'shape': job['shape'], 'placement': job['placement'], 'result_src': r.get('out')}
             if len(r['fail']) > 2:
                 w.update(r['fail'][2])
@@ -727,7 +729,7 @@ def replay(ctx, data):
         if 'fail' in r:
             ctx.fail(_wrap_sig(r, r['fail'][0]), r['fail'][1], w)
         return
-    job = {k: w[k] for k in ('src', 'pat', 'tmpl', 'set', 'cat', 'shape', 'placement', 'tmpl_mode') if k in w}
+    job = {k: w[k] for k in ('src', 'pat', 'tmpl', 'set', 'cat', 'shape', 'placement', 'tmpl_mode', 'spec') if k in w}
     r = _sweep_case(job)
     if 'fail' in r:
         ctx.fail(_fail_sig(job, r['fail'][0]), r['fail'][1], w)
